@@ -189,7 +189,7 @@ def generate(run_index, seed, tier):
         f["age"] = g.pick([0.5, 1.0, 30.0, 3600.0, 86400.0 * 30])
     sc["root_link"] = g.chance(0.25)
     sc["pre_backup"] = g.chance(0.35)
-    names = g.pick([["default_back", "bk1"], ["default_back", "bk1"], ["task-go_orig", "bk1"]])
+    names = g.pick([["default_back", "bk1"], ["default_back", "bk1"], ["task-go_orig", "bk1"], [".orig", "bk1"], ["default_back", ".v2"]])
     if run_index % 3 == 0:
         sc["mode"] = "crash"
         ops = []
@@ -215,6 +215,8 @@ def generate(run_index, seed, tier):
         elif r < 0.62:
             ops.append({"op": "restore", "name": g.pick(names), "via": g.pick(["cli", "api"]),
                         "tasks": g.pick([[], [], g.subset(TASKS, 1, 2)])})
+            if ops[-1]["via"] == "api" and g.chance(0.4):
+                ops[-1]["again"] = True
         elif r < 0.8:
             ops.append({"op": "remodel", "model": g.randrange(len(MODELS)), "name": names[0],
                         "twice": g.pick(["no", "yes", "yes", "modify-between"]), "tasks": g.pick([[], [], ["go"], ["*"]])})
@@ -472,9 +474,19 @@ def _restore_fn(world, o):
                 W["cli_restore"].main(a)
                 return True
             man = W["bm"].BackupManager(root)
-            if not man.get_backup(o["name"]):
+            rec = man.get_backup(o["name"])
+            if not rec:
                 raise W["HedFileError"]("BackupDoesNotExist", o["name"], "")
             man.restore_backup(o["name"], task_names=o.get("tasks") or [], verbose=False)
+            if o.get("again"):
+                # the same manager object is used again after the data changed once more
+                tk = o.get("tasks") or []
+                for key in sorted(_task_files(list(rec), tk) if tk else rec)[:2]:
+                    p_ = os.path.join(root, key)
+                    if os.path.isfile(p_):
+                        with real_open(p_, "ab") as fh:
+                            fh.write(b"7.77\t1\tedited-again\tn/a\t2\n")
+                man.restore_backup(o["name"], task_names=o.get("tasks") or [], verbose=False)
             return True
     return fn
 
